@@ -9,6 +9,7 @@ import TinsModel.Wire.App.Theorems
 import TinsModel.Wire.Wifi.Theorems
 import TinsModel.Wire.RegistryFacts
 import TinsModel.Wire.Coverage
+import TinsModel.Wire.RawCoverage
 /-
   Property C01 — parsing untrusted bytes is memory-safe and fails only as malformed-packet.
   Generic part here; the per-class `*_parse_safe` theorems live in TinsModel/Wire/<Family>/Theorems.lean
@@ -74,6 +75,29 @@ theorem wire_modelled_safe (cls : String) (b : Bytes) (h : Wire.Coverage.safeMod
 
 /-- the rows concerned: every entry point the table marks `modelled` through the wire registry names such a class -/
 example : Wire.Coverage.safeModelled "IP" = true ∧ Wire.Coverage.safeModelled "ICMPv6" = true := by decide
+
+/-! ### raw-site coverage (the tables `Gen.RawSites.all` / `guards` are regenerated from the clang AST on every run) -/
+
+/-- clang parsed every translation unit and the scan found the definition of every entry point that is a root of the parse path -/
+theorem raw_scan_complete : Gen.RawSites.unparsed = [] := Wire.RawCoverage.scan_complete
+
+/-- **raw_sites_covered** — every raw memory access (pointer dereference / subscript / member access through a cast pointer,
+    memcpy / memcmp / memset / std::copy / foreign call with raw pointer operands, pointer cast, pointer arithmetic, hand-over of a
+    raw pointer to another function) in a function reachable from the construct-from-buffer entry points and the option decoders
+    has a disposition in `Wire/RawCoverage.lean`: the Lean model function that mirrors it with a fault-explicit read and the safety
+    theorem over it, or why it cannot leave the buffer, or `unmodelled`.  A raw access added to a parser — which leaves every model
+    and therefore `parse_any_safe` untouched — has none: this theorem then fails and the check reports the new site. -/
+theorem raw_sites_covered : ∀ s ∈ Gen.RawSites.all, (Wire.RawCoverage.disposition s).isSome :=
+  Wire.RawCoverage.rawSites_covered
+
+/-- **raw_guards_present** — every bounds check a disposition relies on (cited as a `Gen.RawSites.guards` key) is still a
+    condition of that function in the current source: removing or rewriting it is reported like a new raw access. -/
+theorem raw_guards_present :
+    ∀ g ∈ Wire.RawCoverage.citedGuards, (Gen.RawSites.guards.any (fun x => x.keyNat == g.n)) = true :=
+  Wire.RawCoverage.guards_present
+
+/-- the rows concerned are there: the table cites guards, and the generated table is not empty -/
+example : Wire.RawCoverage.citedGuards.length > 50 ∧ Gen.RawSites.all.length > 100 := by decide +kernel
 
 /-- non-vacuity: a concrete operation sequence that succeeds and one that is rejected -/
 example : ∃ c', (Cursor.ofBytes [1, 2, 3, 4, 5]).run [.read 2, .peek 0 2, .shrink 2, .skip 2] = .ok c' := ⟨_, rfl⟩
